@@ -1,5 +1,6 @@
 #![allow(dead_code)]
 mod c12;
+mod c14;
 mod c15;
 mod coq;
 mod corpus;
@@ -53,6 +54,7 @@ fn main() {
     }));
     let meta = match prop {
         "C12" => c12::generate(tier, seed, &out, nshards, replay.as_deref()),
+        "C14" => c14::generate(tier, seed, &out, nshards, replay.as_deref()),
         "C15" => c15::generate(tier, seed, &out, nshards, replay.as_deref()),
         "TG" | "C01" | "C02" | "C05" | "C06" | "C07" | "C08" | "C09" | "C10" | "C17" | "C18" => {
             tg::generate(prop, tier, seed, &out, nshards, replay.as_deref())
